@@ -9,6 +9,10 @@ ENGINES = [
      "kind_free_text": "runtime monitor (black box): drives the real release binary `glas --stdio` with generated LSP message sequences (vh::lspclient), observes liveness, exactly-once responses and the server's document text through glas/syntaxTree, judged against a nondeterministic model of acceptable document states"},
     {"name": "m_incr", "path": "harness/vh/src/bin/m_incr.rs", "serves_properties": ["C11"],
      "kind_free_text": "runtime monitor: edit histories over a model workspace with stable FileIds; after every step the long-lived AnalysisHost, a fresh host and a fresh host queried in shuffled order must give equal normal forms; sampled states are re-analysed in a separate process"},
+    {"name": "mi_syntax", "path": "harness/vh/src/bin/mi_syntax.rs", "serves_properties": ["C01", "C02"],
+     "kind_free_text": "interpreter run (thorough tier): `cargo +nightly miri run` executes the real lexer/parser/tree walk on short hostile inputs; Miri reports of undefined behaviour stop the shard and become violations, the C01/C02 oracles judge the results"},
+    {"name": "mi_conc", "path": "harness/vh/src/bin/mi_conc.rs", "serves_properties": ["C12"],
+     "kind_free_text": "interpreter run (thorough tier): the smallest snapshot/cancel scenario (reader on an old snapshot, owner applying a change) under Miri with seeded schedules; data races / UB become violations, the C12 oracles judge what the threads observed"},
     {"name": "m_conc", "path": "harness/vh/src/bin/m_conc.rs", "serves_properties": ["C12"],
      "kind_free_text": "runtime monitor: multi-threaded scenarios (main thread owning the host + reader threads on tagged snapshots, seeded sleeps/yields); offline checker compares every recorded answer with a sequential fresh analysis of the tagged version; cancellation/promptness accounting"},
     {"name": "m_sema", "path": "harness/vh/src/bin/m_sema.rs", "serves_properties": ["C05", "C06", "C07", "C08", "C18"],
@@ -32,17 +36,19 @@ NOT_APPLICABLE = {f"C{n:02d}": _PENDING for n in range(1, 21)}
 
 META = {
     "C01": {
-        "technique": "round-trip (lossless) law monitor over exhaustively enumerated lexeme sequences, corpus prefixes, mutants and random UTF-8",
+        "technique": "round-trip (lossless) law monitor over exhaustively enumerated lexeme sequences, corpus prefixes, mutants and random UTF-8; thorough tier additionally under the Miri interpreter",
         "level_text": ("Exploration: the real parser is executed on ~10^7 (quick) inputs and an oracle checks that leaf tokens reproduce the input byte for byte with contiguous "
                        "non-empty ranges. The lexeme-sequence sub-space (<=3 lexemes x 3 separators x 6 contexts; thorough: longer over sub-alphabets) is enumerated completely; "
-                       "beyond it reach comes from corpus prefixes, mutation, random text and nesting towers around the parser's depth limit. Held-on-observed, not a proof."),
+                       "beyond it reach comes from corpus prefixes, mutation, random text and nesting towers around the parser's depth limit. Thorough tier: the same oracle on ~700 inputs with the parser interpreted by Miri. Held-on-observed, not a proof."),
         "design_ref": "DESIGN.md §5 C01",
         "level_note": "Trusts rowan's green-tree text accessors and the harness's own byte comparison; inputs longer than the enumerated lengths are sampled.",
     },
     "C02": {
-        "technique": "crash/abort/bounded-progress monitor: panic hook + catch_unwind on a 2 MiB stack, child processes with exit-status/signal observation for depth towers and long chains",
+        "technique": "crash/abort/bounded-progress monitor: panic hook + catch_unwind on a 2 MiB stack, child processes with exit-status/signal observation for depth towers and long chains, nesting-bound sweep; thorough tier additionally interprets the parser under Miri",
         "level_text": ("Exploration: every C01 input plus 23 nesting towers x depths up to 16384 (thorough 65536) closed/unclosed and 20 long chains are parsed on the stack size the server uses; "
-                       "the monitor observes returned / panicked (with first in-repo frame) / killed-by-signal / exceeded bound. Found and repaired: 'parser is stuck' panic and stack overflow on deep nesting."),
+                       "the monitor observes returned / panicked (with first in-repo frame) / killed-by-signal / exceeded bound; 48 recursion units x depths 118..134 x 41 tails sweep the parser's nesting bound. "
+                       "Thorough tier: 8 Miri shards interpret parse + tree walk on ~85 hostile inputs each (UB / out-of-bounds / invalid enum value reports become violations). "
+                       "Found and repaired: 'parser is stuck' panic and stack overflow on deep nesting; look-ahead budget too small just below the nesting bound."),
         "design_ref": "DESIGN.md §5 C02",
         "level_note": "Inputs up to ~1 MiB; 'never loops' restated as bounded progress (20 s per parse, 120 s per child => inconclusive, never a violation by time alone).",
     },
@@ -150,7 +156,7 @@ META = {
         "level_note": "Set-valued answers are compared as sorted multisets; probes are sampled token boundaries (12 per file quick, 30 thorough); LRU eviction (140-module workspace) is a thorough-tier case.",
     },
     "C12": {
-        "technique": "tagged-snapshot history checker: answers recorded on reader threads are checked offline against a fresh analysis of the snapshot's version; cancellation and promptness accounting with seeded delays",
+        "technique": "tagged-snapshot history checker: answers recorded on reader threads are checked offline against a fresh analysis of the snapshot's version; cancellation and promptness accounting with seeded delays; thorough tier additionally runs the smallest scenario under Miri (data-race / UB detector, schedules varied by seed)",
         "level_text": ("Exploration of schedules: ~10^4 scenarios / 2.5x10^6 recorded queries per quick run, ~1.3x10^5 of them cancelled mid-sweep; every answer equals its own version's answer; no panic other than Cancelled; "
                        "apply_change latency distribution reported. Held on everything observed."),
         "design_ref": "DESIGN.md §5 C12",
